@@ -222,7 +222,8 @@ REGISTRY = {
     "C07": g_prop("C07 on the reply fixtures (success-only, error-only, both via two methods in both declaration orders, always, one method bound to two names, typed-payload names): for each declared handler name (concrete id) and each outcome, for all gas_used / events (0-2) / data / raw payload bytes / error text (0-2 bytes): the method declared for that outcome (or always) runs with gas_used in the context, events and msg_responses for success, the error text or the full result as declared, the raw payload byte for byte; an outcome with no method is answered as if no reply had been requested (events and data passed through / that error); every id beyond the table is an error and no handler runs. KT: ReplyOn::new and ReplyOn::excludes.",
                   uncovered=["typed (JSON) payloads at dispatch: from_json is out of CBMC's reach", "msg_responses other than empty"], kernels=True),
     "C08": g_prop("C08 on the reply fixtures: for each handler name and each receiver (SubMsg, WasmMsg, CosmosMsg) the generated builder stamps <NAME>_REPLY_ID, requests a reply for exactly the outcomes that have a method (both or always => Always), keeps the wrapped message and, for an existing SubMsg, its gas limit (all Option<u64>), and carries a raw payload byte for byte; reply ids are pairwise distinct (const assertion).",
-                  uncovered=["typed payload JSON round trip (needs a parser)"]),
+                  uncovered=["typed payload JSON round trip (needs a parser): only the builder half is decided, for integer payloads (thorough) and for a lone typed Binary (quoted string vs raw)"],
+                  extra_assumptions=["cosmwasm_std::Binary::to_base64 is stubbed with a fixed text in the one harness about a typed Binary payload (the base64 encoder does not finish under CBMC); that harness decides only JSON-encoded vs raw"]),
     "C09": g_prop("C09 on fx_data (one success handler per data mode + one without data parameter): data absent x 7 modes (optional => None, mandatory => error and handler not invoked, no parameter => handler runs); raw modes with 2 symbolic bytes passed through; decoded modes with a non-envelope byte => error, handler not invoked.",
                   uncovered=["well-formed envelopes and JSON-level corruption reach cosmwasm_std::from_json (CBMC timeout)"]),
     "C14": c14,
